@@ -11,7 +11,7 @@ line, undo stack with a dirty token) plus the most-recently-used list, following
 text.  Correspondence: the extracted model (coq/BufsDefs.v via ocaml/drv_bufs.ml) runs the same
 expanded command list and prints the same canonical events.
 """
-import json, re, os
+import json, re, os, copy
 import vlib
 
 GROUP = 'bufs'
@@ -31,6 +31,7 @@ LIST_RE = re.compile(r'([ \d]\d) (.) (\S*) ([* ])')
 #   ('oa', addr|None, [lines]) ('od', addr|None) ('os', addr|None, tag) ('ou',) ('or',)
 #   ('o=',) ('o%',) ('op', n)
 #   ('alive',)                          ec ALIVE sentinel (observes whether the editor quit)
+#   ('ln', [c1, c2, ...])               one command line `c1|c2|...` (edits s/d, forced switches, a final u/redo)
 
 
 def cmd_text(c):
@@ -82,6 +83,8 @@ def cmd_text(c):
         return '%dp\n' % c[1]
     if k == 'alive':
         return 'ec ALIVE\n'
+    if k == 'ln':
+        return '|'.join(cmd_text(x).rstrip('\n') for x in c[1]) + '\n'
     raise ValueError(c)
 
 
@@ -92,6 +95,8 @@ def hx(s):
 def cmd_token(c):
     """Encoding for the model driver (one token per command)."""
     k = c[0]
+    if k == 'ln':
+        return 'LN/' + '/'.join(cmd_token(x) for x in c[1])
     if k == 'e':
         return 'E:%d:%d:%s:%s' % (c[1], c[2], c[3], hx(c[4] or ''))
     if k == 'bi':
@@ -133,6 +138,7 @@ class SBuf:
         self.undo = []          # [(token before, text before, token after, text after)]
         self.redo = []
         self.stamp = -1         # logical time of the file when read / last written by this buffer (-1: no file)
+        self.open = False       # an undo step of this buffer is still open (same command line, buffer not left since)
 
     def dirty(self):
         return self.tok != self.saved
@@ -174,13 +180,20 @@ class Spec:
 
     def switch_to(self, bid):
         self.cur().row = self.row
+        self.cur().open = False             # leaving a buffer ends its undo step (also in the middle of a command line)
         self.mru.remove(bid)
         self.mru.insert(0, bid)
         self.row = self.cur().row
 
     def change(self, b, new):
         t = self.fresh()
-        b.undo.append((b.tok, b.text, t, new))
+        if b.open and b.undo:
+            # same command line, buffer not left in between: one undo step
+            t0, x0, _, _ = b.undo[-1]
+            b.undo[-1] = (t0, x0, t, new)
+        else:
+            b.undo.append((b.tok, b.text, t, new))
+        b.open = True
         b.redo = []
         b.text, b.tok = new, t
 
@@ -207,6 +220,7 @@ class Spec:
             self.bufs[b.id] = b
             if self.mru:
                 self.cur().row = self.row
+                self.cur().open = False
             self.mru.insert(0, b.id)
             self.row = 0
         b = self.cur()
@@ -236,6 +250,22 @@ class Spec:
         return p if p else '/'
 
     def do(self, c):
+        """One command line: a single command, or ('ln', parts) = `c1|c2|...` (every part runs, a failing one does not
+        stop the line).  The end of the line ends the undo step of the buffer that is current then."""
+        if self.quit:
+            return []
+        if c[0] == 'ln':
+            evs = []
+            for x in c[1]:
+                evs += self.do1(x)
+            ev = ['R'] if 'R' in evs else []
+        else:
+            ev = self.do1(c)
+        if self.mru:
+            self.cur().open = False
+        return ev
+
+    def do1(self, c):
         ev = []
         k = c[0]
         b = self.cur()
@@ -245,10 +275,14 @@ class Spec:
         if k == 'e':
             _, bang, ew, pt, path = c
             # the dirty test comes before the path expansion
+            if not bang and not self.wa:
+                b.open = False
             if not bang and not self.wa and b.dirty():
                 return ev
             self.edit(bang, ew, self.expand_path(pt, path), ev)
         elif k == 'bl':
+            for x in self.bufs.values():
+                x.open = False
             ev.append('L' + ','.join('%d.%s.%s.%d' % (self.bufs[i].id, '%#^'[j] if j < 3 else '_', hx(self.bufs[i].path), self.bufs[i].dirty())
                                      for j, i in enumerate(self.mru)))
         elif k == 'bd':
@@ -322,6 +356,7 @@ class Spec:
             if b.path == path:
                 b.saved = b.tok
                 b.stamp = self.clock
+                b.open = False
         elif k == 'wa':
             self.wa = bool(c[1])
         elif k == 'oa':
@@ -370,11 +405,13 @@ class Spec:
                 t0, x0, t1, x1 = b.undo.pop()
                 b.redo.append((t0, x0, t1, x1))
                 b.text, b.tok = x0, t0
+            b.open = False
         elif k == 'or':
             if b.redo:
                 t0, x0, t1, x1 = b.redo.pop()
                 b.undo.append((t0, x0, t1, x1))
                 b.text, b.tok = x1, t1
+            b.open = False
         elif k == 'o=':
             if 0 <= self.row <= n:
                 ev.append('=%d' % (self.row if self.row == n else self.row + 1))
@@ -453,7 +490,7 @@ def canon_output(out, xcmds):
         s = segs[k].decode('latin-1')
         ev = []
         kind = c[0]
-        if kind in ('e', 'n', 'p'):
+        if kind in ('e', 'n', 'p', 'ln'):
             if '[r]' in s:
                 ev.append('R')
         elif kind == 'bl':
@@ -592,6 +629,70 @@ def gen_history(rng, names, files, length, style):
             return ('p',)
         return ('e', bang, 0, 'cur', None)
 
+    # -- `|`-joined command lines that switch buffers in mid-line (repo commit 75e4c2f: leaving a buffer ends its undo step).
+    #    Parts: s/d edits, switches that skip the dirty test (e! / e # with !, anything under writeany), a final u / redo.
+    def forced_switch(sim):
+        open_paths = [sim.bufs[i].path for i in sim.mru if sim.bufs[i].path]
+        opts = [('e', 1, 0, 'lit', rng.choice(open_paths) if open_paths and rng.chance(3, 4) else rng.choice(names))] * 3
+        if len(sim.mru) > 1:
+            opts.append(('e', 1, 0, 'alt', None))
+        if sim.wa:
+            opts += [('bi', rng.choice(list(sim.mru))), ('b+',), ('b-',), ('ba', rng.range(1, 2)),
+                     ('e', 0, 0, 'lit', rng.choice(open_paths) if open_paths else rng.choice(names))]
+        return rng.choice(opts)
+
+    def line_edit(sim):
+        b = sim.cur()
+        n = len(b.text)
+        tagn[0] += 1
+        a = None if (0 <= sim.row < n and rng.chance(1, 2)) else rng.range(1, n)
+        if rng.chance(3, 4):
+            return ('os', a, '~%d' % tagn[0])
+        return ('od', a)
+
+    def pick_line():
+        sim = copy.deepcopy(sp)
+        parts = []
+        nparts = rng.range(2, 4)
+        switched = False
+        for k in range(nparts):
+            n = len(sim.cur().text)
+            if n == 0 or (k == nparts - 1 and not switched) or rng.chance(1, 2):
+                c = forced_switch(sim)
+                switched = True
+            else:
+                c = line_edit(sim)
+            parts.append(c)
+            sim.do1(c)
+        if rng.chance(1, 3):
+            parts.append(('ou',) if rng.chance(3, 4) else ('or',))
+        return ('ln', parts)
+
+    def push_roundtrip():
+        """`s|e! g`, `e! f|s`, `u`: the undo history of f is its own -- the u undoes only the last line's change."""
+        f = sp.cur()
+        others = [x for x in names if x != f.path]
+        if not f.path or not f.text or not others:
+            push(pick_edit())
+            return
+        g = rng.choice(others)
+        n = len(f.text)
+        tagn[0] += 2
+        first = [('os', rng.range(1, n), '~%d' % (tagn[0] - 1)), ('e', 1, 0, 'lit', g)]
+        sim = copy.deepcopy(sp)
+        for c in first:
+            sim.do1(c)
+        if sim.cur().text and rng.chance(1, 2):
+            first.append(line_edit(sim))
+        push(('ln', first))
+        if sp.cur().path == f.path or sp.find(f.path) is None:
+            return
+        back = ('e', 1, 0, 'lit', f.path) if not (sp.wa and rng.chance(1, 3)) else ('bi', f.id)
+        push(('ln', [back, ('os', rng.range(1, n), '~%d' % tagn[0])]))
+        push(('ou',))
+        if rng.chance(1, 3):
+            push(rng.choice([('ou',), ('or',)]))
+
     if style in ('wa', 'full16') or rng.chance(1, 2):
         push(('wa', 1))
     if style == 'full16':
@@ -600,9 +701,13 @@ def gen_history(rng, names, files, length, style):
         for nm in order:
             push(('e', 1, 0, 'lit', nm))
     while len(cmds) < length and not sp.quit:
-        t = rng.below(100)
+        t = rng.below(112)
         b = sp.cur()
-        if t < 30:
+        if t >= 106:
+            push_roundtrip()
+        elif t >= 100:
+            push(pick_line())
+        elif t < 30:
             push(pick_switch())
         elif t < 55:
             push(pick_edit())
@@ -821,6 +926,8 @@ def hist_from_json(j):
         c = list(c)
         if c[0] == 'oa':
             cmds.append(('oa', c[1], list(c[2])))
+        elif c[0] == 'ln':
+            cmds.append(('ln', [tuple(x) for x in c[1]]))
         else:
             cmds.append(tuple(c))
     return files, list(j['args']), cmds
@@ -832,7 +939,7 @@ def run(ctx):
     exe = vlib.build_vi(asan=False)
     model = ctx.model('bufs')
     res.rule = ('one evaluation = one history (sequence of open/switch/edit/undo/write/delete-buffer/quit commands over 2..16 files) run through '
-                'the real `vi -s -e`, observed after EVERY command (=, %p, current line, :b listing) and compared with the reference map '
+                'the real `vi -s -e`, observed after EVERY command line (single commands and `c1|c2|..` lines that switch buffers in mid-line; =, %p, current line, :b listing) and compared with the reference map '
                 'id -> (path, text, line, dirty, undo stack) + MRU list, plus the files on disk at the end; or one vi-mode key program for the shortcuts. '
                 'non-trivial = the history switches buffers at least 3 times and edits at least 2 different buffers; distinct = distinct command list')
     hists = []      # (tag, files, args, cmds)
@@ -895,7 +1002,10 @@ def run(ctx):
         res.count('files %d' % len(args))
         for c in cmds:
             res.count('cmd ' + c[0])
-        nsw = sum(1 for c in cmds if c[0] in ('e', 'bi', 'b+', 'b-', 'ba', 'n', 'p', 'q', 'bd'))
+        flat = [x for c in cmds for x in (c[1] if c[0] == 'ln' else [c])]
+        nsw = sum(1 for c in flat if c[0] in ('e', 'bi', 'b+', 'b-', 'ba', 'n', 'p', 'q', 'bd'))
+        if any(c[0] == 'ln' for c in cmds):
+            res.count('histories with |-joined command lines (mid-line buffer switch)')
         if nsw >= 3 and len(set(l.split('+')[0] for c in cmds if c[0] == 'oa' for l in c[2][:1])) >= 2:
             res.nontriv(json.dumps([list(c) for c in cmds]))
         if sp.evicted:
